@@ -144,7 +144,7 @@ func selected(name string) bool {
 
 // guard runs check, converting a panic of the code under test (or the oracle)
 // into a failure so that it is reported with a replay file. A case that does
-// not finish within the watchdog period (default 60 s; cases take micro- to
+// not finish within the watchdog period (default 300 s; cases take micro- to
 // milliseconds) is reported as a hang: the case is saved, statistics are
 // flushed and the process exits, because the stuck goroutine cannot be stopped
 // and shrinking would only stack up more of them.
@@ -162,6 +162,15 @@ func guard[C any](name string, check func(C) Result, c C) Result {
 	}()
 	timer := time.NewTimer(caseTimeout())
 	defer timer.Stop()
+	slow := time.NewTimer(caseTimeout() / 10)
+	defer slow.Stop()
+	select {
+	case res := <-done:
+		return res
+	case <-slow.C:
+		// not a verdict: a note for whoever maintains the generators (a case should take milliseconds)
+		fmt.Printf("VERIF-SLOW sub=%s a case is taking more than %v\n", name, caseTimeout()/10)
+	}
 	select {
 	case res := <-done:
 		return res
@@ -183,7 +192,7 @@ func caseTimeout() time.Duration {
 			return d
 		}
 	}
-	return 60 * time.Second
+	return 300 * time.Second
 }
 
 func (s *sub[C]) run(t *testing.T) {
